@@ -883,7 +883,7 @@ def b_type(eng, s, a, k, node):
 
 
 def b_hash(eng, s, a, k, node):
-    v = a[0]
+    v = eng.refine_obj(a[0], s)
     if v.ty.kind == "str":
         eng.effects_used.add("hash(str): process-varying")
         return [(s, SV(INT, eng.reg.ufun("hash_str_PROCESS", z3.StringSort(), z3.IntSort())(v.t)))]
